@@ -22,6 +22,7 @@ def run(ctx: common.Ctx):
     probe_whole_field_refusals(ctx)
     probe_mapping_batch_refusals(ctx)
     probe_extended_slice_refusals(ctx)
+    probe_unconsumable_operands(ctx)
 
 
 def probe_extended_slice_refusals(ctx: common.Ctx):
@@ -309,6 +310,64 @@ def probe_ancestor_into_descendant(ctx: common.Ctx):
         else:
             ctx.monitor_failure(c03.SIG_REUSE, f'{text!r}: an enclosing expression was accepted as its own descendant\'s child',
                                 {'text': text})
+
+
+def probe_unconsumable_operands(ctx: common.Ctx):
+    """Directed: "an arithmetic operand that cannot be consumed". The right operand of an in-place operator is a
+    NumberExpr whose expression tree was legally moved into another expression (it spanned its whole store), so it has
+    no tokens left and cannot be copied: the operator must refuse - with the left operand, attached inside a ledger,
+    exactly as it was, whichever wrapping (parentheses around a sum, around a signed number) it would have needed."""
+    import decimal
+    import operator
+    from autobean_refactor import models
+    from harness import gen_docs
+
+    def spent():
+        donor = models.NumberExpr.from_value(decimal.Decimal(5))
+        receiver = models.NumberExpr.from_value(decimal.Decimal(7))
+        receiver.raw_number_add_expr = donor.raw_number_add_expr
+        return donor
+
+    lefts = ['1 + 2', '4', '-3', '2 * 3', '8 / 2 - 1', '(1 + 2)', '- (1 + 2)', '1 - -2']
+    ops = [('+=', operator.iadd), ('-=', operator.isub), ('*=', operator.imul), ('/=', operator.itruediv)]
+    for left in lefts:
+        text = f'2000-01-01 *\n    Assets:Foo       {left} USD\n    Assets:Bar\n'
+        for opn, fn in ops:
+            f = gen_docs.parse_ok(text, True)
+            if f is None:
+                continue
+            number = f.raw_directives[0].postings[0].raw_number
+            snap = lambda: (gen_docs.print_model(f), [id(t) for t in f.token_store], gen_docs.print_model(number),
+                            id(number.raw_number_add_expr), treewalk_dump(f))
+            before = snap()
+            try:
+                operand = spent()
+            except Exception:
+                ctx.count('unconsumable_operand_not_constructible')
+                return
+            ctx.count('unconsumable_operand_probes')
+            w = {'text': text, 'op': f'postings[0].raw_number {opn} <NumberExpr whose tree was moved away>'}
+            try:
+                fn(number, operand)
+            except Exception as x:
+                try:
+                    after = snap()
+                except Exception as y:
+                    ctx.monitor_failure(c03.SIG_ATOMIC, f'{left!r} {opn} <spent operand> raised {type(x).__name__} and left a document '
+                                        f'that cannot be read ({type(y).__name__})', w)
+                    continue
+                if after != before:
+                    what = [n for n, a, b in zip(('printed text', 'token identities', 'the number\'s own text', 'the number\'s child', 'tree'), after, before) if a != b]
+                    ctx.monitor_failure(c03.SIG_ATOMIC, f'{left!r} {opn} <operand that cannot be consumed> raised {type(x).__name__} but changed '
+                                        f'{", ".join(what)}: the document prints {after[0]!r}', w)
+            else:
+                # accepted: then the result must at least be a document that says what it prints (not this property's)
+                ctx.count('unconsumable_operand_accepted')
+
+
+def treewalk_dump(root):
+    from harness import treewalk
+    return treewalk.dump(root)
 
 
 def search(ctx: common.Ctx):
